@@ -18,6 +18,7 @@ OUTSIDE = ['more sources / longer sources', 'the ChaCha8 stream itself (modelled
 ASSUMPTIONS = ['rand modelled as all streams; reproducibility from the seed is checked as: no draw is taken from a '
                'generator that was not created from the seed', 'sources are in-memory ExactSizeIterators']
 KNOWN_MATCHERS = {}
+VALIDATION_ALLOW_FORKS = True
 OPTS = {'quick': {'step_budget': 30000}, 'thorough': {'step_budget': 60000}}
 STRATS = ['Sequential', 'Interleaved', 'Weighted']
 
